@@ -198,11 +198,15 @@ class At4Zone(pyairtouch.api.Zone):
             raise ValueError(
                 "Cannot change temperature for zones without a temperature sensor"
             )
+        set_point = round(temperature)
+        if set_point < 0 or set_point > 255:  # noqa: PLR2004
+            # The value doesn't fit into the message, so it could never be sent.
+            raise ValueError(f"temperature {temperature} cannot be represented")
         # We keep things simple and always change the control method to align
         # with the requested setting.
         await self._send_group_control_message(
             control_method=group_ctrl_msg.GroupControlMethod.TEMPERATURE,
-            setting=group_ctrl_msg.GroupSetPointControl(set_point=round(temperature)),
+            setting=group_ctrl_msg.GroupSetPointControl(set_point=set_point),
         )
 
     @override
